@@ -96,6 +96,7 @@ func buildEvidence(spec *Spec, tier string, seed int, results []*EntryResult, ws
 		"unwinding":           unwinding,
 		"vacuity":             vac,
 		"solver_s":            stats.Time.Seconds(),
+		"cross_solver":        map[string]interface{}{"queries_rechecked": stats.CrossChecked, "agree": stats.CrossAgree, "disagree": stats.CrossDisagree, "other_solvers_inconclusive": stats.CrossInconclusive, "with": "z3 4.8.12 (/usr/bin/z3) and cvc5, standalone scripts of sampled sat/unsat queries"},
 		"load_ssa_s":          loadT.Seconds(),
 		"explore_s":           exploreT.Seconds(),
 		"solver":              solverDesc,
